@@ -53,7 +53,7 @@ class StubModel:
 
 def make_table(R, C, values=True):
     """R x C table; every cell a distinct text value 'r,c' (so moves are observable)"""
-    t = object.__new__(Table)
+    t = Table.__new__(Table)
     t._model = StubModel()
     t._table_id = 7
     t.num_rows = R
